@@ -123,6 +123,7 @@ type TypeDecl struct {
 	TestOnly     bool
 	PackageOnly  [][]string // one entry per @packageonly line; nil = none
 	Implements   []string   // raw argument text per @implements line
+	ImplRefs     []ImplRef  // structured @implements lines (qualifier resolved per file at render time)
 	ExtraDoc     []string   // other doc lines (noise), rendered first
 	Grouped      bool       // rendered as type ( ... ) group
 	IfaceMethods []string   // for KIface: method signatures
@@ -147,6 +148,12 @@ func (t *TypeDecl) FieldByName(n string) *Field {
 		}
 	}
 	return nil
+}
+
+// ImplRef is one `@implements [&]pkg.Iface` line.
+type ImplRef struct {
+	Ptr   bool
+	Iface *TypeDecl
 }
 
 // TypeRef is one syntactic mention of a named type.
